@@ -69,7 +69,13 @@ var c08Legal = map[Status][]Status{
 
 var c08ProposalPhase = map[Status]bool{Proposing: true, Proposed: true, Accepted: true, Rejected: true, Joined: true}
 
-func c08Role(st *DBState, me *pdkg.Participant) string {
+// c08Roles: the places a node has in a proposal record (a first-epoch leader is also a joiner, a reshare leader is
+// also a remainer). The returned name is the most specific one, for signatures and evidence.
+type c08Roles struct {
+	leader, joiner, remainer, leaver bool
+}
+
+func c08RolesOf(st *DBState, me *pdkg.Participant) c08Roles {
 	eq := func(p *pdkg.Participant) bool {
 		return p != nil && p.Address == me.Address && bytes.Equal(p.Key, me.Key)
 	}
@@ -81,38 +87,45 @@ func c08Role(st *DBState, me *pdkg.Participant) string {
 		}
 		return false
 	}
+	return c08Roles{leader: eq(st.Leader), joiner: in(st.Joining), remainer: in(st.Remaining), leaver: in(st.Leaving)}
+}
+
+func (r c08Roles) name() string {
 	switch {
-	case eq(st.Leader):
+	case r.leader:
 		return "leader"
-	case in(st.Joining):
+	case r.joiner:
 		return "joiner"
-	case in(st.Remaining):
+	case r.remainer:
 		return "remainer"
-	case in(st.Leaving):
+	case r.leaver:
 		return "leaver"
 	}
 	return "outsider"
 }
 
-// c08RoleAllows: which role may enter which state.
-func c08RoleAllows(to Status, role string) bool {
+func c08Role(st *DBState, me *pdkg.Participant) string { return c08RolesOf(st, me).name() }
+
+// c08RoleAllows: which place in the proposal a node needs to enter a state.
+func c08RoleAllows(to Status, r c08Roles) bool {
+	listed := r.leader || r.joiner || r.remainer || r.leaver
 	switch to {
 	case Proposing:
-		return role == "leader"
+		return r.leader
 	case Proposed:
-		// "leader": a node can be told its own proposal by gossip when it does not hold it any more (here: the
-		// harness forges well-formed proposals with the leader's real key, and the receivers gossip them on)
-		return role != "outsider"
+		// also a leader: a node can be told its own proposal by gossip when it does not hold it any more (here:
+		// the harness forges well-formed proposals with the leader's real key, and the receivers gossip them on)
+		return listed
 	case Accepted, Rejected:
-		return role == "remainer"
+		return r.remainer
 	case Joined:
-		return role == "joiner"
+		return r.joiner
 	case Left:
-		return role == "leaver" || role == "joiner"
+		return r.leaver || r.joiner
 	case Executing, Complete, Failed:
-		return role == "leader" || role == "remainer" || role == "joiner"
+		return r.leader || r.remainer || r.joiner
 	case Aborted, TimedOut:
-		return role != "outsider"
+		return listed
 	}
 	return false
 }
@@ -142,8 +155,8 @@ type c08Step struct {
 }
 
 const (
-	c08Phase   = 500 * time.Millisecond
-	c08Kickoff = 250 * time.Millisecond
+	c08Phase   = 800 * time.Millisecond
+	c08Kickoff = 600 * time.Millisecond
 )
 
 func c08MakeCase(idx int) c08Case {
@@ -343,7 +356,8 @@ func (h *c08H) onWrite(nd *vfdNode, w *vfdWrite) {
 	if cb != nil {
 		from, fromEpoch = cb.State, cb.Epoch
 	}
-	role := c08Role(ca, nd.part)
+	roles := c08RolesOf(ca, nd.part)
+	role := roles.name()
 	kind := "savecurrent"
 	if w.Finished {
 		kind = "savefinished"
@@ -382,15 +396,25 @@ func (h *c08H) onWrite(nd *vfdNode, w *vfdWrite) {
 		if !legal {
 			run.Violation(fmt.Sprintf("C08/illegal-transition/%s-to-%s/%s", from, ca.State, role),
 				fmt.Sprintf("node %s (%s): current.State %s -> %s (epoch %d -> %d) is not a legal edge", nd.addr, role, from, ca.State, fromEpoch, ca.Epoch), h.info(wi))
-		} else if !c08RoleAllows(ca.State, role) {
+		} else if !c08RoleAllows(ca.State, roles) {
 			run.Violation(fmt.Sprintf("C08/transition-not-allowed-for-role/%s-to-%s/%s", from, ca.State, role),
 				fmt.Sprintf("node %s: %s -> %s written on a node whose role in that proposal is %s", nd.addr, from, ca.State, role), h.info(wi))
 		}
 	}
-	// (b) epoch monotone
-	if cb != nil && ca.Epoch < cb.Epoch {
-		run.Violation(fmt.Sprintf("C08/epoch-decreased/%s-to-%s/%s", from, ca.State, role),
-			fmt.Sprintf("node %s: current.Epoch %d -> %d", nd.addr, cb.Epoch, ca.Epoch), h.info(wi))
+	// (b) epoch monotone. The number of an aborted / timed-out / failed attempt is discarded with the attempt
+	// (the next proposal starts from the finished record): there the new epoch must exceed the finished epoch.
+	if cb != nil {
+		floor, what := cb.Epoch, "current.Epoch"
+		if c08Terminal(from) {
+			floor, what = 0, "finished.Epoch"
+			if fb != nil {
+				floor = fb.Epoch + 1
+			}
+		}
+		if ca.Epoch < floor {
+			run.Violation(fmt.Sprintf("C08/epoch-decreased/%s-to-%s/%s", from, ca.State, role),
+				fmt.Sprintf("node %s: current.Epoch %d -> %d (must not go below %d, from %s)", nd.addr, cb.Epoch, ca.Epoch, floor, what), h.info(wi))
+		}
 	}
 	// (c) the finished record
 	if !bytes.Equal(w.FinBefore, w.FinAfter) {
@@ -1248,9 +1272,19 @@ func (h *c08H) recovery() {
 			return
 		}
 		for _, m := range members {
-			if v := h.view(m); v.fin == nil || v.fin.Epoch != fin.Epoch {
+			v := h.view(m)
+			if v.fin == nil || v.fin.Epoch != fin.Epoch {
 				// some members completed the epoch and others did not: the documented operator case, not ours
 				run.Count("recovery_skipped_partial_epoch", 1)
+				return
+			}
+			// members that came out of the epoch with different groups (node set / seed) are C06's matter; a
+			// proposal built from one member's record is then legitimately refused by another
+			if v.fin.FinalGroup == nil || strings.Join(c06NodesDesc(v.fin.FinalGroup), ",") != strings.Join(c06NodesDesc(g), ",") ||
+				!bytes.Equal(v.fin.GenesisSeed, fin.GenesisSeed) {
+				run.Count("recovery_skipped_members_hold_different_groups", 1)
+				run.Note(fmt.Sprintf("case %d: members hold different groups for epoch %d: %s has %v seed %x, reference %v seed %x", h.c.Index, fin.Epoch,
+					m.addr, c06NodesDesc(v.fin.FinalGroup), v.fin.GenesisSeed, c06NodesDesc(g), fin.GenesisSeed))
 				return
 			}
 		}
@@ -1275,8 +1309,23 @@ func (h *c08H) recovery() {
 			return p.leader.cmdReshare(fin.Threshold, 1, timeout, nil, vfdParts(vfdShuffled(h.rng, members)), nil)
 		})
 		if err != nil {
+			views := map[string]any{}
+			for _, m := range members {
+				v := h.view(m)
+				d := map[string]any{"state": c08Desc(v)}
+				if v.fin != nil && v.fin.FinalGroup != nil {
+					d["genesis_seed"] = hex.EncodeToString(v.fin.GenesisSeed)
+					d["group_hash"] = hex.EncodeToString(v.fin.FinalGroup.Hash())
+					d["group_nodes"] = c06NodesDesc(v.fin.FinalGroup)
+					d["group_threshold"] = v.fin.FinalGroup.Threshold
+					d["group_transition"] = v.fin.FinalGroup.TransitionTime
+					d["group_genesis"] = v.fin.FinalGroup.GenesisTime
+				}
+				views[m.addr] = d
+			}
 			run.Violation("C08/not-recoverable/proposal-for-next-epoch-refused-after-history",
-				fmt.Sprintf("all %d members hold finished epoch %d and nothing is in flight, yet a fresh valid proposal for epoch %d was answered: %v", len(members), fin.Epoch, fin.Epoch+1, err), h.info(nil))
+				fmt.Sprintf("all %d members hold finished epoch %d and nothing is in flight, yet a fresh valid proposal for epoch %d was answered: %v", len(members), fin.Epoch, fin.Epoch+1, err),
+				h.info(map[string]any{"members": views}))
 			return
 		}
 	}
@@ -1298,18 +1347,19 @@ func (h *c08H) recovery() {
 		if nd == p.leader {
 			continue
 		}
+		nd := nd
 		var err error
 		if p.epoch == 1 {
-			err = nd.cmdJoin(nil)
+			err = h.step(c08Opt{kind: "cmd-join", class: "recovery", actor: nd, target: nd}, func() error { return nd.cmdJoin(nil) })
 		} else {
-			err = nd.cmdAccept()
+			err = h.step(c08Opt{kind: "cmd-accept", class: "recovery", actor: nd, target: nd}, func() error { return nd.cmdAccept() })
 		}
 		if err != nil {
 			run.Violation("C08/not-recoverable/answer-to-recovery-proposal-refused", fmt.Sprintf("%s: %v", nd.addr, err), h.info(nil))
 			return
 		}
 	}
-	if err := p.leader.cmdExecute(); err != nil {
+	if err := h.step(c08Opt{kind: "cmd-execute", class: "recovery", actor: p.leader, target: p.leader}, func() error { return p.leader.cmdExecute() }); err != nil {
 		run.Violation("C08/not-recoverable/execute-of-recovery-proposal-refused", err.Error(), h.info(nil))
 		return
 	}
